@@ -231,15 +231,9 @@ def run(ctx):
         string_sweep(ctx)
         # fixed documents whose simplified form is delicate: one window of a pair collapses into a symmetric entry
         # while another window of the same pair stays asymmetric; three consecutive windows for one pair
-        three = [{"name": n, "epochs": [{"start_size": 100}]} for n in "ABC"]
-        for k, migs in enumerate((
-                [{"demes": ["A", "B", "C"], "rate": 0.125, "start_time": 200, "end_time": 100},
-                 {"source": "A", "dest": "B", "rate": 0.0625, "start_time": 50, "end_time": 0}],
-                [{"source": "A", "dest": "B", "rate": 0.125, "end_time": 100}, {"source": "A", "dest": "B", "rate": 0, "start_time": 100, "end_time": 50},
-                 {"source": "A", "dest": "B", "rate": 0.125, "start_time": 50},
-                 {"source": "B", "dest": "A", "rate": 0.125, "end_time": 100}, {"source": "B", "dest": "A", "rate": 0.125, "start_time": 50}])):
-            d = {"time_units": "generations", "demes": copy.deepcopy(three), "migrations": migs}
-            check_graph(ctx, demes.Graph.fromdict(d), d, f"corpus:windows{k}", tmpdir)
+        from props.common import delicate_docs
+        for d, tag in delicate_docs():
+            check_graph(ctx, demes.Graph.fromdict(copy.deepcopy(d)), d, "corpus:" + tag, tmpdir)
         done = 0
         while done < n and ctx.time_left() > 15:
             models = gen_models(ctx, min(40, n - done), max_demes=5)
